@@ -265,4 +265,92 @@ Proof.
   apply (collect_chain tx gsearch gsearch_ok gsearch_nf _ m_init).
 Qed.
 
+(* ---- find_iter over the compiled search = the reference iteration (C08) ---- *)
+(* the reference search as a search function: the first result of the reference semantics *)
+Definition rsearch (pos : nat) (f : bool) : sres :=
+  match search_list {| c_text := tx; c_pos := pos; c_skipped := f |} e (S (length tx)) with
+  | Some caps => SSome caps
+  | None => SNone
+  end.
+
+Lemma vsearch_rsearch pos f : bnd cs pos ->
+  match vsearch pos f with
+  | SSome sv => exists caps, rsearch pos f = SSome caps /\ span_of caps = span_of sv
+  | SNone => rsearch pos f = SNone
+  | SErr _ => True
+  end.
+Proof.
+  intros Hpos. destruct (vsearch pos f) as [er| |sv] eqn:Ev; auto.
+  - unfold vsearch, regex_search in Ev. unfold rsearch.
+    set (cx := {| c_text := tx; c_pos := pos; c_skipped := f |}) in *.
+    pose proof (vm_agrees_with_reference_all cs W cx eq_refl Hlen Hpos bs e p Hcomp Hok Hrefs max_st limit fuelv) as H.
+    destruct (fst (vm_run cx p max_st limit fuelv)); try discriminate. cbn [c_text cx] in H. rewrite H. reflexivity.
+  - destruct (vsearch_ok pos f sv Hpos Ev) as (a & b & Hs & _).
+    unfold vsearch, regex_search in Ev. unfold rsearch.
+    set (cx := {| c_text := tx; c_pos := pos; c_skipped := f |}) in *.
+    pose proof (vm_agrees_with_reference_all cs W cx eq_refl Hlen Hpos bs e p Hcomp Hok Hrefs max_st limit fuelv) as H.
+    destruct (fst (vm_run cx p max_st limit fuelv)) as [sv0| | | | |]; try discriminate. inversion Ev; subst sv0.
+    cbn [c_text cx] in H. rewrite H. eexists; split; [reflexivity|].
+    destruct sv as [|[x|] [|[y|] r]]; cbn [span_of] in Hs; try discriminate.
+    change (2 * S (ngroups e)) with (S (S (2 * ngroups e + 0))) || replace (2 * S (ngroups e)) with (S (S (2 * ngroups e))) by lia. reflexivity.
+Qed.
+
+Definition same_span (o1 o2 : option item) : Prop :=
+  match o1, o2 with
+  | None, None => True
+  | Some (ItOk a b _), Some (ItOk a' b' _) => a = a' /\ b = b'
+  | _, _ => False
+  end.
+Definition is_err (o : option item) : Prop := match o with Some (ItErr _) => True | _ => False end.
+
+Lemma mn_reference : forall fuel st, bst cs st ->
+  is_err (fst (matches_next tx vsearch fuel st)) \/
+  (same_span (fst (matches_next tx vsearch fuel st)) (fst (matches_next tx rsearch fuel st)) /\
+   snd (matches_next tx vsearch fuel st) = snd (matches_next tx rsearch fuel st) /\
+   bst cs (snd (matches_next tx vsearch fuel st))).
+Proof.
+  induction fuel as [|f IH]; intros st Hst; cbn [matches_next].
+  all: destruct (Nat.ltb_spec (length tx) (last_end st)) as [Hgt|Hle]; [right; cbn; auto|].
+  all: assert (Hb : bnd cs (last_end st)) by (destruct Hst as [Hb|Hb]; [exact Hb|unfold tx in *; lia]).
+  all: pose proof (vsearch_rsearch (last_end st)
+         (match last_match st with Some lm => lm <? last_end st | None => false end) Hb) as Hr.
+  all: destruct (vsearch (last_end st) _) as [er| |sv] eqn:E; [left; exact I|rewrite Hr; right; cbn; auto|].
+  all: destruct Hr as (caps & -> & Hsp); rewrite Hsp.
+  all: destruct (vsearch_ok _ _ _ Hb E) as (a & b & Hs & H1 & H2 & H3 & Hb1 & Hb2); rewrite Hs.
+  all: assert (Bb : bnd cs b) by (apply is_boundary_bnd; auto).
+  all: pose proof (bst_next cs W b Bb H3) as Hn; fold tx in Hn.
+  all: destruct (a =? b); [|right; cbn; split; [auto|split; [auto|left; exact Bb]]].
+  all: destruct (match last_match st with Some lm => lm =? b | None => false end);
+    [|right; cbn; split; [auto|split; [auto|exact Hn]]].
+  - left. exact I.
+  - apply IH. exact Hn.
+Qed.
+
+Definition spans (l : list item) : list (option (nat * nat)) :=
+  map (fun it => match it with ItOk a b _ => Some (a, b) | ItErr _ => None end) l.
+
+(* as long as the compiled search does not give up (stack bound, backtrack limit), find_iter yields
+   exactly the spans of the iteration over the reference search *)
+Theorem vm_find_iter_is_reference : forall n st, bst cs st ->
+  no_err (collect tx vsearch n st) -> spans (collect tx vsearch n st) = spans (collect tx rsearch n st).
+Proof.
+  induction n as [|n IH]; intros st Hst Hne; [reflexivity|]. cbn [collect] in *. unfold mnext in *.
+  destruct (mn_reference (next_fuel tx st) st Hst) as [He|(Hs & Est & Hb)].
+  - destruct (matches_next tx vsearch (next_fuel tx st) st) as [[[er|a b sv]|] st']; cbn in He, Hne; contradiction.
+  - destruct (matches_next tx vsearch (next_fuel tx st) st) as [o1 st1].
+    destruct (matches_next tx rsearch (next_fuel tx st) st) as [o2 st2]. cbn [fst snd] in *. subst st2.
+    destruct o1 as [[er|a b sv]|], o2 as [[er'|a' b' sv']|]; cbn in Hs; try contradiction; auto.
+    destruct Hs as [-> ->]. cbn [spans map]. f_equal. cbn [no_err] in Hne. apply IH; auto.
+Qed.
+
 End VmSearch.
+
+(* ---------- the hypotheses in one place ---------- *)
+(* a VM-compiled pattern inside the end-to-end theorem, with no \K under a look-behind, searched
+   over a valid UTF-8 text *)
+Definition VmScope (cs : list (list nat)) (bs : N -> bool) (e : expr) (p : prog) : Prop :=
+  valid_chars cs /\ (N.of_nat (length (concat cs)) < usize_max)%N /\
+  compile bs (wrap e) = inr p /\ oke true 0 (wrap e) /\ refs_ok True (refd bs) (wrap e) /\ kok true e.
+
+(* executable form *)
+Definition vm_scope_b (bs : N -> bool) (e : expr) : bool := Scope.in_scope_all bs e && kokb true e.
